@@ -195,6 +195,7 @@ func (s *Skiplist) NewLevel(randFn func() float32) int {
 }
 
 func (s *Skiplist) helpDelete(level int, prev, curr, next *Node, sts *Stats) bool {
+	verifPoint(VpHelpBeforeUnlink, unsafe.Pointer(curr))
 	success := prev.dcasNext(level, curr, next, false, false)
 	if success && level == 0 {
 		sts.AddInt64(&sts.softDeletes, -1)
@@ -308,6 +309,7 @@ retry:
 	}
 
 	// Now node is part of the skiplist
+	verifPoint(VpInsBeforePublish, unsafe.Pointer(x))
 	if !buf.preds[0].dcasNext(0, buf.succs[0], x, false, false) {
 		sts.AddUint64(&sts.insertConflicts, 1)
 		goto retry
@@ -327,7 +329,9 @@ retry:
 				goto finished
 			}
 
+			verifPoint(VpInsBeforeLink, unsafe.Pointer(x))
 			if buf.preds[i].dcasNext(i, next, x, false, false) {
+				verifPoint(VpInsLinked, unsafe.Pointer(x))
 				break fixThisLevel
 			}
 
@@ -349,6 +353,7 @@ func (s *Skiplist) softDelete(delNode *Node, sts *Stats) bool {
 	for i := targetLevel; i >= 0; i-- {
 		next, deleted := delNode.getNext(i)
 		for !deleted {
+			verifPoint(VpDelBeforeMark, unsafe.Pointer(delNode))
 			if delNode.dcasNext(i, next, next, false, true) && i == 0 {
 				sts.AddInt64(&sts.softDeletes, 1)
 				marked = true
@@ -391,6 +396,7 @@ func (s *Skiplist) DeleteNode2(n *Node, cmp CompareFn,
 func (s *Skiplist) deleteNode(n *Node, cmp CompareFn, buf *ActionBuffer, sts *Stats) bool {
 	itm := n.Item()
 	if s.softDelete(n, sts) {
+		verifPoint(VpDelMarked, unsafe.Pointer(n))
 		s.findPath(itm, cmp, buf, sts)
 		return true
 	}
